@@ -205,10 +205,13 @@ def getcfcheckpt : Codec (Nat × Bytes) := seq u8 hash32
 makes the length 4 hold by construction, whatever the hash function) -/
 def checksum (payload : Bytes) : Bytes := (BV.Sha256.hash2List payload ++ [0, 0, 0, 0]).take 4
 
-/-- length (≤ MaxProtocolMessageLength), checksum, payload; the checksum must match -/
+/-- the length field of the message header, accepted up to `MaxProtocolMessageLength` -/
+def lenField : Codec Nat := guard u32le (fun n => n ≤ MaxProtocolMessageLength) .tooBig
+
+/-- length (≤ MaxProtocolMessageLength), checksum, payload; the checksum must match. The payload
+buffer (`make([]byte, hdr.length)`) is charged as soon as the length is accepted. -/
 def framedPayload : Codec Bytes :=
-  imap (guard (seqDep (guard u32le (fun n => n ≤ MaxProtocolMessageLength) .tooBig)
-                 (fun n => seq (bytesN 4) (charge (bytesN n) (fun p => p.length))))
+  imap (guard (seqDep (charge lenField (fun n => n)) (fun n => seq (bytesN 4) (bytesN n)))
           (fun p => p.2.1 = checksum p.2.2))
     (fun p => p.2.2) (fun pl => (pl.length, checksum pl, pl))
 
@@ -235,6 +238,12 @@ def readMessage {α : Type} (c : Codec α) (maxPayload net : Nat) (cmd : Bytes) 
     else match decodeAll c payload with
       | .error e => .error e
       | .ok a => .ok (a, r)
+
+/-- bytes requested while reading one message: the payload buffer, then whatever the payload decoder asks for -/
+def readMessageAlloc {α : Type} (c : Codec α) (b : Bytes) : Nat :=
+  frame.alloc b + match frame.dec b with
+    | .ok ((_, _, pl), _) => c.alloc pl
+    | .error _ => 0
 
 /-! ### command table (message.go: makeEmptyMessage, MaxPayloadLength of every message) -/
 
